@@ -110,7 +110,7 @@ func scenarios(prop, tier string) []*Scenario {
 			r = append(r, &Scenario{Name: baseName(base), Cfg: hdr.Config{MaxBranchDepth: 144, Base: base}, N: pick(3, 4), M: 1,
 				Maint: []hdr.Op{opClean, opReload}, Attach: []int{0, -1, -2}, Slots: []string{"a", "H"}})
 		}
-		r = append(r, fileBoundaryRestart())
+		r = append(r, fileBoundaryRestart(), prunedFiles())
 		for _, s := range r {
 			s.oracles = []oracle{oracleC09}
 			// lookups are also made after every operation of the history, not only in the state under
@@ -140,6 +140,7 @@ func scenarios(prop, tier string) []*Scenario {
 			r = append(r, &Scenario{Name: baseName(base), Cfg: hdr.Config{MaxBranchDepth: 144, Base: base}, N: pick(3, 4), M: 2,
 				Maint: []hdr.Op{opClean}, Attach: []int{0, -1, -2}, Slots: []string{"a", "H"}})
 		}
+		r = append(r, prunedFiles())
 		for _, s := range r {
 			s.oracles = []oracle{oracleC10, oracleC01, oracleC08verdict, oracleC09}
 		}
@@ -173,6 +174,9 @@ func scenarios(prop, tier string) []*Scenario {
 			&Scenario{Name: "genesis/configured-invalid", Cfg: hdr.Config{MaxBranchDepth: 144, Invalid: []string{"G/a/a"}}, N: pick(4, 5), Marks: 1, M: 1,
 				Maint: []hdr.Op{opReload}, Slots: []string{"a", "H"}},
 		)
+		// a restart with a longer configured invalid list than the one persisted by the previous run
+		r = append(r, &Scenario{Name: "genesis/invalid-list-extended-at-restart", Cfg: hdr.Config{MaxBranchDepth: 144, Invalid: []string{"G/a/a"}, InvalidLater: []string{"G/a/b", "G/b"}},
+			N: pick(4, 5), M: 1, Maint: []hdr.Op{opReload}})
 		// marking between two persistence operations: the trim has to reach the branch files
 		r = append(r,
 			&Scenario{Name: "genesis/save+mark+reload", Cfg: hdr.Config{MaxBranchDepth: 144}, N: pick(4, 5), Marks: 1, M: 2,
@@ -201,6 +205,9 @@ func scenarios(prop, tier string) []*Scenario {
 				Maint: []hdr.Op{opClean}, Attach: []int{0, -1}, Slots: []string{"a", "H"}})
 		}
 		r = append(r, fileBoundaryRestart())
+		// blocks that leave the best chain because a header below them is marked invalid
+		r = append(r, &Scenario{Name: "genesis/mark-invalid", Cfg: hdr.Config{MaxBranchDepth: 144}, N: pick(4, 5), Marks: 1, M: 1,
+			Maint: []hdr.Op{opClean}, Slots: []string{"a", "H"}})
 		for _, s := range r {
 			s.oracles = []oracle{oracleC18}
 		}
@@ -255,6 +262,10 @@ func scenarios(prop, tier string) []*Scenario {
 			s.ForeignProbes = true
 		}
 	case "C12":
+		// a reorganisation across a header-file boundary (fork below height 1000 of a saved chain of
+		// 1005 headers overtakes it), saved, with a stop at every storage call
+		r = append(r, &Scenario{Name: "base-1005/reorg-across-file-boundary", Cfg: hdr.Config{MaxBranchDepth: 144, Base: 1005}, N: 1, M: 1, GrowSides: 1, GrowSideBy: 6,
+			Maint: []hdr.Op{opSave, opClean}, Attach: []int{-10}, Slots: []string{"H"}})
 		r = append(r,
 			&Scenario{Name: "genesis/crash-in-clean-save", Cfg: hdr.Config{MaxBranchDepth: 144}, N: pick(5, 6), M: pick(2, 3),
 				Maint: []hdr.Op{opClean, opSave, opReload}},
@@ -279,6 +290,14 @@ func scenarios(prop, tier string) []*Scenario {
 		}
 	}
 	return r
+}
+
+// prunedFiles: a chain of 2003 headers whose memory is reduced to the last few (scaled retained depth
+// 3) by Clean or by a restart: two complete header files lie entirely in pruned history, so range
+// and height queries cross a file boundary below everything held in memory.
+func prunedFiles() *Scenario {
+	return &Scenario{Name: "base-2003/two-pruned-header-files", Cfg: hdr.Config{MaxBranchDepth: 144, Base: 2003}, N: 1, M: 1,
+		Maint: []hdr.Op{{K: "cleand", D: 3}, {K: "reloadd", D: 3}}, Attach: []int{0}, Slots: []string{"a"}}
 }
 
 // fileBoundaryRestart: restarts (Save + Load with a scaled retained depth of 2 or 3) of a chain of
